@@ -19,6 +19,9 @@ from props.lefcommon import *
 from props import c04 as C4
 
 HARNESS_BINS = ["c04"]
+PROOF_FILES = ["Lef/LefWrite_proofs.v", "Lef/LefWFrame_proofs.v", "Lef/LefWDec_proofs.v", "Lef/LefWPin_proofs.v", "Lef/LefWVia_proofs.v",
+               "Lef/LefWMacro_proofs.v", "Lef/LefWLib_proofs.v", "Lef/LefIFrame_proofs.v", "Lef/LefIConstr_proofs.v", "Lef/LefILex_proofs.v",
+               "Lef/LefIPin_proofs.v", "Lef/LefIVia_proofs.v", "Lef/LefIMacro_proofs.v", "Lef/LefILib_proofs.v"] + C4.PROOF_FILES[1:]
 
 TOKRE = re.compile(r'#[^\n]*|"[^"]*"?|;|[^\s;]+')
 REPL = ["END", "MACRO", "LAYER", "PIN", "PORT", "RECT", "VERSION", "PROPERTY", "UNITS", "ITERATE", "DO", "1.5", "-3", "1e3", "5.4", "5.8", "zz", ";",
@@ -98,7 +101,7 @@ def gen_cases(chk):
         pairs.append((Raw(C4.STY_PLAIN), lib)); kinds.append("feature")
         if not quick:
             pairs.append((gen_style(rng, lib), lib)); kinds.append("feature")
-    for i in range(200 if quick else 2500):
+    for i in range(140 if quick else 1500):
         ver = rng.choice([None, 53, 54, 55, 56, 57, 58])
         lib = gen_lib(rng, ver, "plain" if i % 3 == 0 else "mixed")
         pairs.append((gen_style(rng, lib, plain=(i % 5 == 0)), lib)); kinds.append("random")
@@ -113,7 +116,7 @@ def gen_cases(chk):
         if add("directed", s):
             base.append(s)
     # single-token faults; only the texts the reader still accepts become cases of the property
-    nm = 4 if quick else 30
+    nm = 3 if quick else 10
     for s in base:
         tk = tokens(s)
         if not tk:
@@ -177,7 +180,7 @@ def failure_class(r):
     return "written text is " + C4.failure_class(r["r"]["ok"], r.get("r2"))
 
 def run(chk, replay=None):
-    chk.proof_leg(["Lef/LefCheck.vo"], "Properties/C05.v", ["Lef/LefWrite_proofs.v", "Lef/LefRoundtrip_proofs.v"], "Properties.C05")
+    chk.proof_leg(["Lef/LefCheck.vo"], "Properties/C05.v", PROOF_FILES, "Properties.C05")
     chk.assumptions += [
         "rust_decimal's Decimal::from_str / Display / PartialEq are an external library: specified in Lef/LefDec.v from its source and validated by the correspondence",
         "std formatting (`write!`, Display of char and integers) and derive_builder `build()` are modelled by their documented behaviour",
